@@ -59,12 +59,12 @@ macro "tso_simp_h" : tactic => `(tactic|
 macro "tso_finish" : tactic => `(tactic| (
     constructor
     all_goals (try simp only [ownerLocked, carry, resetting, ownerFlight, upd_apply, applySto])
-    all_goals (first | assumption | grind [thiefLocked, mayBuf, notTrans, thiefFlight, List.length_dropLast] | grind [thiefLocked, mayBuf, notTrans, thiefFlight, List.length_dropLast, getLast?_tail_of_length, CarryShape, Pu2Shape, PofShape, Po6Shape, Po8Shape, Po9Shape, TkfShape, Tk6Shape] | skip)))
+    all_goals (first | assumption | grind [thiefLocked, mayBuf, notTrans, thiefFlight, List.length_dropLast] | grind [thiefLocked, mayBuf, notTrans, thiefFlight, List.length_dropLast, getLast?_tail_of_length, CarryShape, Pu2Shape, PofShape, Po6Shape, Po8Shape, Po9Shape, InsShape, TkfShape, Tk6Shape] | skip)))
 
 /-- like `tso_finish`, with the shapes unfolded at once (flush steps) -/
 macro "tso_finish3" : tactic => `(tactic| (
     constructor
     all_goals (try simp only [ownerLocked, carry, resetting, ownerFlight, upd_apply, applySto])
-    all_goals (first | assumption | grind [thiefLocked, mayBuf, notTrans, thiefFlight, List.length_dropLast, getLast?_tail_of_length, upd_apply, CarryShape, Pu2Shape, PofShape, Po6Shape, Po8Shape, Po9Shape, TkfShape, Tk6Shape] | skip)))
+    all_goals (first | assumption | grind [thiefLocked, mayBuf, notTrans, thiefFlight, List.length_dropLast, getLast?_tail_of_length, upd_apply, CarryShape, Pu2Shape, PofShape, Po6Shape, Po8Shape, Po9Shape, InsShape, TkfShape, Tk6Shape] | skip)))
 
 end MythVerif.WsqTso
